@@ -12,7 +12,7 @@ use tokio_rustls::rustls::{self, client::danger::{HandshakeSignatureValid, Serve
 
 use super::padding::PANICS;
 
-struct Pair { id: &'static str, cert_pem: String, key_pem: String, key_pem_sec1: String, der: Vec<u8>, serial: String }
+struct Pair { id: &'static str, cert_pem: String, key_pem: String, key_pem_sec1: String, der: Vec<u8>, serial: String, subject: String }
 
 // --- minimal DER helpers: re-encode the P-256 PKCS#8 key as a traditional SEC1 "EC PRIVATE KEY" --------
 fn tlv(b: &[u8], pos: usize) -> (u8, usize, usize) {
@@ -50,8 +50,11 @@ fn pem_wrap(label: &str, der: &[u8]) -> String {
 }
 
 /// expired: 0 = valid, 1 = expired for years, 2 = expired an hour ago
-fn make_pair(id: &'static str, expired: u8) -> Pair {
+fn make_pair(id: &'static str, expired: u8) -> Pair { make_pair_serial(id, expired, None) }
+/// `serial`: give the certificate this serial number (a renewed pair that keeps the serial of the one it replaces)
+fn make_pair_serial(id: &'static str, expired: u8, serial: Option<Vec<u8>>) -> Pair {
     let mut params = rcgen::CertificateParams::new(vec!["localhost".to_string()]).unwrap();
+    if let Some(sn) = serial { params.serial_number = Some(rcgen::SerialNumber::from(sn)); }
     params.distinguished_name.push(rcgen::DnType::CommonName, format!("verif-{}", id));
     if expired == 1 { params.not_before = rcgen::date_time_ymd(2001, 1, 1); params.not_after = rcgen::date_time_ymd(2002, 1, 1); }
     if expired == 2 { let now = time::OffsetDateTime::now_utc(); params.not_before = now - time::Duration::days(30); params.not_after = now - time::Duration::hours(1); }
@@ -60,7 +63,8 @@ fn make_pair(id: &'static str, expired: u8) -> Pair {
     let cert_pem = cert.pem();
     let serial = CertificateInfo::from_pem_bytes(cert_pem.as_bytes()).map(|i| i.serial_number).unwrap_or_default();
     let key_pem_sec1 = pkcs8_to_sec1(&key.serialize_der()).map(|d| pem_wrap("EC PRIVATE KEY", &d)).unwrap_or_else(|| key.serialize_pem());
-    Pair { id, cert_pem, key_pem: key.serialize_pem(), key_pem_sec1, der: cert.der().to_vec(), serial }
+    let subject = CertificateInfo::from_pem_bytes(cert_pem.as_bytes()).map(|i| i.subject).unwrap_or_default();
+    Pair { id, cert_pem, key_pem: key.serialize_pem(), key_pem_sec1, der: cert.der().to_vec(), serial, subject }
 }
 
 #[derive(Debug)]
@@ -140,9 +144,11 @@ async fn run_history(log: &Log, r: &mut Rng, pairs: &[Pair], sc: &Value, check_e
     let (s2, a2) = (server.clone(), saddr.clone());
     let listen = tokio::spawn(async move { let _ = s2.listen(&a2).await; });
     crate::net::wait_listening(&saddr).await;
-    let abs = |id: &'static str| if id == "C1" { "C" } else { id };
+    let abs = |id: &'static str| if id == "C1" { "C" } else if id == "B1" { "B" } else { id };
+    // which certificate stands for "B" in this history: an unrelated one, or one that keeps the serial number of A
+    let bvar: &str = if r.chance(1, 2) { "B1" } else { "B" };
     let idof = |der: &[u8]| pairs.iter().find(|p| p.der == der).map(|p| abs(p.id)).unwrap_or("unknown");
-    let idser = |s: &str| pairs.iter().find(|p| p.serial == s).map(|p| abs(p.id)).unwrap_or("unknown");
+    let idsub = |s: &str| pairs.iter().find(|p| p.subject == s).map(|p| abs(p.id)).unwrap_or("unknown");
     let mut last = rel.get_last_reload();
     // which expired certificate stands for "C" in this history
     let cvar: &str = if r.chance(1, 2) { "C1" } else { "C" };
@@ -158,7 +164,7 @@ async fn run_history(log: &Log, r: &mut Rng, pairs: &[Pair], sc: &Value, check_e
             let content: Option<String> = match id.as_str() {
                 "missing" => None,
                 "garbage" => Some((*r.pick(&["", "not a pem file\n", "-----BEGIN CERTIFICATE-----\n!!!!\n-----END CERTIFICATE-----\n", "\u{0}\u{1}\u{2}binary"])).to_string()),
-                x => { let x = if x == "C" { cvar } else { x };
+                x => { let x = if x == "C" { cvar } else if x == "B" { bvar } else { x };
                        let p = pairs.iter().find(|p| p.id == x).unwrap();
                        // the key is stored in PKCS#8 or in the traditional SEC1 encoding
                        let pem = if a == "cert" { &p.cert_pem } else if r.chance(1, 2) { &p.key_pem_sec1 } else { &p.key_pem };
@@ -170,7 +176,7 @@ async fn run_history(log: &Log, r: &mut Rng, pairs: &[Pair], sc: &Value, check_e
         // observe
         let hs = handshake(&rel).await;
         let srv = handshake_tcp(&saddr).await;
-        let info = rel.get_cert_info().map(|i| idser(&i.serial_number).to_string()).unwrap_or("none".into());
+        let info = rel.get_cert_info().map(|i| idsub(&i.subject).to_string()).unwrap_or("none".into());
         let now_last = rel.get_last_reload();
         let changed = now_last != last; last = now_last;
         let oldok = ping(&mut old).await;
@@ -255,7 +261,9 @@ pub fn run(args: &Args, log: &Log) -> Result<(), String> {
     let mut r = Rng::new(args.seed);
     let scs = super::read_scenarios(&args.scenarios);
     // "C" of the abstract alphabet (an expired certificate) is concretised as C (expired for years) or C1 (expired an hour ago)
-    let pairs = vec![make_pair("A", 0), make_pair("B", 0), make_pair("C", 1), make_pair("C1", 2)];
+    let a = make_pair_serial("A", 0, Some(vec![0x41, 0x42, 0x43, 0x44, 0x45]));
+    let b1 = make_pair_serial("B1", 0, Some(vec![0x41, 0x42, 0x43, 0x44, 0x45]));
+    let pairs = vec![a, make_pair("B", 0), make_pair("C", 1), make_pair("C1", 2), b1];
     let dir = tempfile::tempdir().map_err(|e| e.to_string())?;
     let rt = tokio::runtime::Builder::new_current_thread().enable_all().build().unwrap();
     rt.block_on(async {
